@@ -1,7 +1,7 @@
 #!/bin/bash
 # usage: verify_seed.sh C09 A   -- confirm a seeded change in the scratch worktree /tmp/wt_<ID>
 # (demo passes on clean tree, fails with patch, full test suite passes with patch); writes verify.json
-ID=$1; M=$2; WT=/tmp/wt_$ID; OUT=/tmp/out_$ID/$M
+ID=$1; M=$2; WT=${WTPREFIX:-/tmp/wt_}$ID; OUT=${OUTPREFIX:-/tmp/out_}$ID/$M
 cd $WT || exit 2
 git checkout -q -- . ; git status --short | grep -q . && { echo "worktree dirty"; exit 2; }
 PYTHONPATH=$WT timeout 600 /venv/bin/python $OUT/demo.py > $OUT/demo_clean.log 2>&1; rc_clean=$?
